@@ -22,7 +22,9 @@ func c19Doc(i int, symbolic bool) any {
 	case 9: // a $merge map with sibling keys inside a list-valued key
 		return map[string]any{"tmpl": map[string]any{"port": c}, "services": []any{map[string]any{"name": "web", "$merge": "tmpl"}, []any{map[string]any{"$merge": "tmpl", "n": 1}}}}
 	case 7: // a forward cross-document reference into a subtree that itself holds a $merge
-		return map[string]any{"h": map[string]any{"$replace": []any{map[string]any{"id": 2}, "tmpl"}}, "k": c}
+		// (the referring document has a key "base" of its own, so the nested
+		// $merge: base of the referenced subtree resolves in its context)
+		return map[string]any{"h": map[string]any{"$replace": []any{map[string]any{"id": 2}, "tmpl"}}, "k": c, "base": map[string]any{"x": 9}}
 	case 8: // the document such a reference points into
 		return map[string]any{"id": 2, "base": map[string]any{"x": c}, "tmpl": map[string]any{"$merge": "base", "y": 3}}
 	case 0:
